@@ -40,7 +40,15 @@ F_I2F = z3.Function('f.i2f', I, R)          # int -> nearest double
 F_ROUND = z3.Function('f.round', R, I)      # round(x): nearest integer, ties to even
 F_TRUNC = z3.Function('f.trunc', R, I)      # int(x): truncation toward zero
 F_RND_ND = z3.Function('f.round_nd', R, I, R)  # round(x, nd)
-F_OPS = {'f.mul', 'f.div', 'f.add', 'f.sub', 'f.i2f', 'f.round', 'f.trunc', 'f.round_nd'}
+POW2 = z3.Function('pow2', I, I)               # 2**k for symbolic k >= 0 (uninterpreted; facts added on use)
+
+
+def pow2_facts(k):
+    return [POW2(k) >= 1]
+
+
+F_ISCLOSE = z3.Function('f.isclose', R, R, R, B)   # math.isclose(a, b, rel_tol=r, abs_tol=0.0)
+F_OPS = {'f.isclose', 'f.mul', 'f.div', 'f.add', 'f.sub', 'f.i2f', 'f.round', 'f.trunc', 'f.round_nd'}
 
 
 def is_sym(v):
@@ -59,7 +67,7 @@ class Sym:
     For ints, `supp` is an upper bound on the set of bits that may be 1 (only
     meaningful for values known to be >= 0; None = unknown).
     """
-    __slots__ = ('t', 'ty', 'supp', 'bf', 'pieces')
+    __slots__ = ('t', 'ty', 'supp', 'bf', 'pieces', 'p2')
 
     def __init__(self, t, ty, supp=None, bf=None, pieces=None):
         self.t = t
@@ -67,6 +75,7 @@ class Sym:
         self.supp = supp
         self.bf = bf      # (base term, offset, length|None): value == bits(base, offset, length)  (normal form)
         self.pieces = pieces  # [(shift, width, term)]: value == sum term_i * 2^shift_i, 0 <= term_i < 2^width_i, disjoint
+        self.p2 = None        # ('pow', k) if value == 2**k ; ('mask', k) if value == 2**k - 1   (k a z3 Int term)
 
     def __repr__(self):
         s = str(self.t)
@@ -312,7 +321,7 @@ def arith(op, a, b):
         f = {'+': F_ADD, '-': F_SUB, '*': F_MUL, '/': F_DIV}[op]
         if op == '/':
             c = ctx()
-            zero = mk_bool(y == 0)
+            zero = mk_bool(real_term(b) == 0)
             if zero is True or (zero is not False and c is not None and c.branch(zero.t, tag='ZeroDivisionError?')):
                 from .symex import PyRaise, make_exc
                 raise PyRaise(make_exc('ZeroDivisionError', 'division by zero'))
@@ -328,7 +337,10 @@ def arith(op, a, b):
                 return mk_int(x + y, supp, None, sorted(pa + pb, key=lambda p: -p[0]))
         return mk_int(x + y, supp)
     if op == '-':
-        return mk_int(x - y)
+        r = mk_int(x - y)
+        if isinstance(a, Sym) and a.p2 is not None and a.p2[0] == 'pow' and not isinstance(b, Sym) and b == 1:
+            r.p2 = ('mask', a.p2[1])
+        return r
     if op == '*':
         for (c, v) in ((a, b), (b, a)):
             if not isinstance(c, Sym) and isinstance(c, int) and c > 0 and (c & (c - 1)) == 0 and isinstance(v, Sym):
@@ -393,7 +405,23 @@ def bitop(op, a, b):
         return mk_bool({'&': z3.And, '|': z3.Or, '^': z3.Xor}[op](x, y))
     if op in ('<<', '>>'):
         if isinstance(b, Sym):
-            raise Unsupported(f'symbolic shift amount in {op}')
+            c = ctx()
+            kt = int_term(b)
+            neg = mk_bool(kt < 0)
+            if neg is True or (neg is not False and c is not None and c.branch(neg.t, tag='negative-shift?')):
+                from .symex import PyRaise, make_exc
+                raise PyRaise(make_exc('ValueError', 'negative shift count'))
+            if c is not None:
+                for fct in pow2_facts(kt):
+                    c.assume(fct)
+            x = int_term(a)
+            if op == '<<':
+                r = mk_int(x * POW2(kt))
+                if not isinstance(a, Sym) and a == 1:
+                    r = mk_int(POW2(kt))
+                    r.p2 = ('pow', kt)
+                return r
+            return mk_int(x / POW2(kt))
         if b < 0:
             from .symex import PyRaise, make_exc
             raise PyRaise(make_exc('ValueError', 'negative shift count'))
@@ -415,6 +443,9 @@ def bitop(op, a, b):
             return mk_int(bf_term(base, off + b, nl), None if sa is None else sa >> b, (base, off + b, nl))
         return mk_int(x / (1 << b), None if sa is None else sa >> b)
     if op == '&':
+        for (u, w) in ((a, b), (b, a)):
+            if isinstance(w, Sym) and w.p2 is not None and w.p2[0] == 'mask':
+                return mk_int(int_term(u) % POW2(w.p2[1]))
         if isinstance(a, Sym) and isinstance(b, Sym):
             sa, sb = supp_of(a), supp_of(b)
             if sa is not None and sb is not None:
@@ -541,8 +572,14 @@ def veq(a, b):
     """Structural/semantic equality usable in contracts on any modelled value."""
     from .gv import GV
     from .sbytes import SBytes
+    from .abstract import App, TableGet, veq2
     if isinstance(a, GV) or isinstance(b, GV):
         return GV.eq(a, b)
+    if isinstance(a, (App, TableGet)) or isinstance(b, (App, TableGet)):
+        return veq2(a, b)
+    from .sstr import SStr
+    if isinstance(a, SStr) or isinstance(b, SStr):
+        return veq2(a, b)
     if isinstance(a, SBytes) or isinstance(b, SBytes):
         return SBytes.eq(a, b)
     if isinstance(a, (tuple, list)) and isinstance(b, (tuple, list)):
@@ -571,3 +608,20 @@ def fresh_int(name, lo=None, hi=None, bits=None):
         if lo is not None and lo >= 0 and supp is None:
             supp = (1 << int(hi).bit_length()) - 1
     return mk_int(t, supp), cs
+
+
+def real_q(q):
+    """z3 Real for a Fraction."""
+    from fractions import Fraction
+    q = Fraction(q)
+    if q.denominator == 1:
+        return z3.RealVal(str(q.numerator))
+    return z3.RealVal(str(q.numerator)) / z3.RealVal(str(q.denominator))
+
+
+def isclose(a, b, rel_tol=1e-09):
+    """math.isclose(a, b, rel_tol=rel_tol) on native or symbolic numbers."""
+    if not any(isinstance(x, Sym) for x in (a, b, rel_tol)):
+        import math
+        return math.isclose(a, b, rel_tol=rel_tol)
+    return mk_bool(F_ISCLOSE(float_term(a), float_term(b), float_term(rel_tol)))
